@@ -3,6 +3,7 @@ CONSTANTS
   Programs <- GenPrograms2
   ShardOf <- SameShard
   InsertOverwrites = FALSE
+  MapSkipsHeldShard = FALSE
 SPECIFICATION Spec
 INVARIANT EmitSchedule
 CHECK_DEADLOCK FALSE
